@@ -13,7 +13,7 @@ from .common import call, same, is_symbolic, PathAbort, mk_array
 
 PROP = "C16"
 SYMS = ["R", "C", "L", "K", "Tlm"]
-LABELS = ["", "a"]
+LABELS = ["", "a", " 2"]      # " 2" is refused by set_label (digits only after stripping): the element stays unlabelled
 
 
 def _classes():
@@ -67,9 +67,9 @@ def gen_tree(eng, leaves: int, symbols, vary_fixed: bool = True):
             if kw["Zeta"] is None:
                 kw.pop("Zeta")
         el = Class(**kw)
-        lab = LABELS[eng.choice(len(LABELS), "e%d.label" % idx)]
-        el.set_label(lab)
-        fixed = bool(eng.choice(2, "e%d.fixed" % idx)) if vary_fixed else False
+        lab = LABELS[eng.choice(len(LABELS) if idx < 2 else 2, "e%d.label" % idx)]
+        call(el.set_label, lab)
+        fixed = bool(eng.choice(2, "e%d.fixed" % idx)) if (vary_fixed and idx < 2) else False
         for key in Class.get_default_values():
             v = eng.real("e%d.%s" % (idx, key))
             el._parameter_lower_limit[key] = float("-inf")
@@ -139,10 +139,14 @@ def make_harness(leaves: int, symbols, with_user_variable: bool):
         eng.reached("identifiers")
         # ---- names
         names = {id(e): circuit.get_element_name(e, ext) for e in ext}
-        dup_labels = len(set(names.values())) != N
+        dup_names = len(set(names.values())) != N
+        labelled = [(e.get_symbol(), e.get_label()) for e in ext if e.get_label() != ""]
+        dup_labels = len(set(labelled)) != len(labelled)
+        eng.check(dup_names == dup_labels, "names are unique unless the user assigned duplicate labels",
+                  lambda: "names %r, labels %r" % (sorted(names.values()), labelled))
         ok, res = call(fit.validate_circuit, circuit)
-        eng.check(ok == (not dup_labels), "validate_circuit refuses exactly the circuits with duplicate names", lambda: "names %r -> %r" % (sorted(names.values()), res))
-        if dup_labels:
+        eng.check(ok == (not dup_names), "validate_circuit refuses exactly the circuits with duplicate names", lambda: "names %r -> %r" % (sorted(names.values()), res))
+        if dup_names:
             return
         # ---- fit identifiers and the lmfit round trip
         idents = fit.generate_fit_identifiers(circuit)
@@ -224,14 +228,14 @@ def make_harness(leaves: int, symbols, with_user_variable: bool):
     return harness
 
 
-def make_sympy_harness(leaves: int):
+def make_sympy_harness(leaves: int, symbols=("R", "C", "K"), evaluate: bool = True):
     """the symbolic expression's variables denote the right parameters: evaluating the expression with
     each variable bound to its element's symbolic value reproduces the numeric impedance"""
     def harness(eng):
         from pyimpspec.circuit.circuit import Circuit
         from sx.sym import eval_sympy
         eng.div_zero_policy = "assume"
-        con = gen_tree(eng, leaves, ["R", "C", "K"], vary_fixed=False)
+        con = gen_tree(eng, leaves, list(symbols), vary_fixed=False)
         circuit = Circuit(con)
         ext = circuit.generate_element_identifiers(running=False)
         names = {id(e): circuit.get_element_name(e, ext) for e in ext}
@@ -239,7 +243,12 @@ def make_sympy_harness(leaves: int):
             return
         f = eng.real("f", npy=True)
         eng.assume(f > 0)
-        expr = circuit.to_sympy()
+        ok, expr = call(circuit.to_sympy)
+        if not ok:
+            # a transmission line whose sub-circuit impedances vanish for the chosen values is refused: degenerate, outside the claim
+            eng.check(isinstance(expr, NotImplementedError), "to_sympy only refuses degenerate transmission lines", lambda: "%r" % (expr,))
+            eng.reached("sympy")
+            return
         env = {}
         run = circuit.generate_element_identifiers(running=True)      # Circuit.to_sympy numbers the variables like the fit identifiers
         for e, i in run.items():
@@ -248,8 +257,15 @@ def make_sympy_harness(leaves: int):
         free = {str(s) for s in expr.free_symbols}
         n_par = sum(len(e.get_values()) for e in ext)
         okv = (free - {"f"} == set(env)) and len(env) == n_par
-        eng.check(okv, "one variable per parameter, named after its element", lambda: "%d parameters, variables %r" % (n_par, sorted(free)))
+        els = list(ext)
+        clash = any(a is not b_ and a.get_symbol() != b_.get_symbol() and a.get_label() != "" and a.get_label() == b_.get_label()
+                    and set(a.get_values()) & set(b_.get_values()) for a in els for b_ in els)
+        lab = "one variable per parameter, named after its element" + (" (equally labelled elements of different types share a parameter symbol)" if clash else "")
+        eng.check(okv, lab, lambda: "%d parameters, variables %r" % (n_par, sorted(free)))
         if not okv:
+            return
+        if not evaluate:
+            eng.reached("sympy")
             return
         env["f"] = f
         zs = eval_sympy(expr, env)
@@ -282,7 +298,7 @@ def make_encoding_harness():
 
 
 def _key(witness, label):
-    if label == "one variable per parameter, named after its element":
+    if label == "one variable per parameter, named after its element (equally labelled elements of different types share a parameter symbol)":
         return "same label on elements of different types that share a parameter symbol"
     return label
 
@@ -307,6 +323,8 @@ def obligations(tier: str):
                           functions=funcs, stubs=stubs, expect_reach=["identifiers", "table"], max_paths=1500000))
     obs.append(Obligation("sympy.%d" % lv, make_sympy_harness(3), bounds="nests of <= 3 elements over R, C, K: to_sympy variables vs numeric impedance",
                           functions=funcs, expect_reach=["sympy"], mode="fresh", max_paths=1500000, key=_key))
+    obs.append(Obligation("sympy.container", make_sympy_harness(3, ("Tlm", "R"), evaluate=False), bounds="nests of <= 3 elements over Tlm (with nested sub-circuits) and R: the variables "
+                          "of to_sympy are exactly one per parameter, named by running identifier or label", functions=funcs + [base.Container.to_sympy], expect_reach=["sympy"], mode="fresh", max_paths=1500000, key=_key))
     obs.append(Obligation("encoding", make_encoding_harness(), bounds="identifiers 0..24 x the six registered parameter symbols with the most underscores", functions=[fit._extract_parameters],
                           expect_reach=["encoding"], max_paths=1500000))
     for o in obs:
